@@ -7,7 +7,7 @@ def build_history(ex):
 
 
 PLAN = dict(
-    id="C02",
+    id="C02", api_files=['tracing-core/src/dispatch.rs'],
     level="other",
     explanation=(
         "The per-thread representation invariant I2'' of the default-dispatch state (with a live scope: the thread-local default is the top of this thread's "
